@@ -209,6 +209,8 @@ def as_sequence(eng, v):
         if v.items is None:
             return v.n, v.get
         items = v.items
+        if not items:
+            return 0, (lambda k: None)
         if all(kind_of(x) is not None for x in items) and items:
             k0 = "real" if any(kind_of(x) == "real" for x in items) else kind_of(items[0])
 
